@@ -94,6 +94,40 @@ func malformedFrame(r *core.Rand) []byte {
 	}
 }
 
+// malformedFromValid damages a valid frame of any type without changing its size or its
+// header length field (inner length / count octets, body octets), until rtcp.Unmarshal rejects
+// it when given alone in a slice of exactly its size. Such a frame is self-delimiting, so a
+// datagram containing it anywhere must fail as a whole.
+func malformedFromValid(r *core.Rand) []byte {
+	for tries := 0; tries < 40; tries++ {
+		f, ok := genFrame(r, false)
+		if !ok || len(f.b) < 8 {
+			continue
+		}
+		m := cloneBytes(f.b)
+		for n := 1 + r.Intn(3); n > 0; n-- {
+			switch r.Intn(5) {
+			case 0: // an inner octet → large value (length octets of BYE reasons, SDES items, REMB counts, …)
+				m[4+r.Intn(len(m)-4)] = byte(r.Pick(0xFF, 0xFE, 0x80, 0x7F, len(m), len(m)-4))
+			case 1: // count / FMT bits
+				m[0] = m[0]&0xE0 | byte(r.Intn(32))
+			case 2: // a 16-bit inner field → boundary
+				o := 4 + 2*r.Intn((len(m)-4)/2)
+				v := r.Pick(0xFFFF, 0x7FFF, 0x8000, 0x3FFF, 0x4000, len(m), len(m)/2)
+				m[o], m[o+1] = byte(v>>8), byte(v)
+			case 3: // the last octets (padding counts, terminators)
+				m[len(m)-1-r.Intn(4)] = byte(r.Pick(0xFF, 0x80, len(m), 5, 9))
+			default:
+				m[4+r.Intn(len(m)-4)] ^= byte(1 << uint(r.Intn(8)))
+			}
+		}
+		if ps, err, pan := gUnmarshal(cloneBytes(m)); pan == "" && err != nil && ps == nil {
+			return m
+		}
+	}
+	return nil
+}
+
 func surplus(r *core.Rand) []byte {
 	n := 1 + r.Intn(7)
 	b := r.Bytes(n)
@@ -231,6 +265,15 @@ func c06Datagram(cs *core.Case, fs []frame, source string) {
 	} else {
 		cs.Fail("all-or-nothing/malformed-frame-accepted-alone", core.W{"input_hex": mon.Hex(bad, 64), "packets": vdump(ps1)})
 	}
+	// a damaged frame of a registered type (rejected alone) anywhere in the datagram
+	if bad2 := malformedFromValid(r); bad2 != nil {
+		pos2 := r.Intn(len(fs) + 1)
+		var with []byte
+		with = append(with, concatFrames(fs[:pos2])...)
+		with = append(with, bad2...)
+		with = append(with, concatFrames(fs[pos2:])...)
+		c06MustFail(cs, "all-or-nothing/damaged-frame", with, fmt.Sprintf("frame %s (rejected when decoded alone) inserted before frame %d of [%s]", mon.Hex(bad2, 96), pos2, trace()))
+	}
 	// truncation strictly inside a frame
 	fi := r.Intn(len(fs))
 	off := 0
@@ -263,9 +306,11 @@ func runC06(c *core.Ctx) {
 		c06MustFail(cs, "all-or-nothing/empty", nil, "nil datagram")
 	})
 	// frames with the maximum length field 0xFFFF (262144 octets), alone and between neighbours
-	c.Section("max-frame", c.N(12, 120), func(cs *core.Case) {
+	bigLens := []int{0x3FFE, 0x3FFF, 0x4000, 0x4001, 0x7FFF, 0x8000, 0xBFFF, 0xC000, 0xFFFE, 0xFFFF, 0xFFFF, 0xFFFF}
+	c.Section("max-frame", uint64(len(bigLens))*c.N(4, 40), func(cs *core.Case) {
 		r := cs.R
-		n := 262144
+		lf := bigLens[cs.Idx/4%uint64(len(bigLens))]
+		n := 4 * (lf + 1)
 		b := make([]byte, n)
 		kind := "raw"
 		switch cs.Idx % 4 {
@@ -287,12 +332,12 @@ func runC06(c *core.Ctx) {
 			bl := (n-8)/4 - 1
 			b[10], b[11] = byte(bl>>8), byte(bl)
 		}
-		b[2], b[3] = 0xFF, 0xFF
+		b[2], b[3] = byte(lf>>8), byte(lf)
 		pre := []byte{0x81, 206, 0, 2, 1, 2, 3, 4, 5, 6, 7, 8}
 		for _, in := range [][]byte{b, append(append(cloneBytes(pre), b...), pre...)} {
 			ps, err, pan := gUnmarshal(cloneBytes(in))
 			cs.Eval(1)
-			cs.Distinct(core.Digest([]byte("max"), in[:300], []byte{byte(len(in) >> 8)}))
+			cs.Distinct(core.Digest([]byte("max"), in[:300], []byte{byte(len(in) >> 16), byte(len(in) >> 8), byte(len(in))}))
 			cs.Count("max-frame/" + kind)
 			if pan != "" {
 				cs.Fail("panic/rtcp.Unmarshal", core.W{"input_hex": mon.Hex(in, 64), "input_len": len(in), "panic": pan})
@@ -340,6 +385,39 @@ func runC06(c *core.Ctx) {
 		cs.Eval(1)
 		if bpan != "" || berr != nil || len(base) != 1 {
 			return
+		}
+		// capacity independence: the own decoder given frame[:n] of a larger array full of other
+		// octets must behave exactly as on a slice of exactly n octets (for valid and damaged frames)
+		for t := 0; t < 2; t++ {
+			fr := e.B
+			if t == 1 {
+				if bad := malformedFromValid(r); bad != nil {
+					fr = bad
+				}
+			}
+			kk := gen.RegisteredKind(fr[1], fr[0]&0x1F)
+			if fr[1] == 205 && fr[0]&0x1F == 2 {
+				kk = gen.SLI
+			}
+			exact, eerr, epan := gUnmarshalOwn(kk, cloneBytes(fr))
+			big := append(append(make([]byte, 0, len(fr)+64), fr...), r.Bytes(64)...)
+			if r.Bool() {
+				if f2, ok := genFrame(r, false); ok {
+					big = append(append(make([]byte, 0, len(fr)+len(f2.b)), fr...), f2.b...)
+				}
+			}
+			roomy, rerr, rpan := gUnmarshalOwn(kk, big[:len(fr)])
+			cs.Eval(2)
+			cs.Count("capacity-independence/" + kk.String())
+			if epan != "" || rpan != "" {
+				cs.Fail("panic/Unmarshal", core.W{"input_hex": mon.Hex(fr, 300), "panic": epan + rpan})
+				return
+			}
+			if (eerr == nil) != (rerr == nil) || (eerr == nil && !mon.SemEqual(exact, roomy)) {
+				cs.Fail("context-free/capacity", core.W{"decoder": kk.String(), "input_hex": mon.Hex(fr, 300), "octets_beyond_len_hex": mon.Hex(big[len(fr):], 64),
+					"exact_capacity": vdump(exact), "exact_error": errStr(eerr), "spare_capacity": vdump(roomy), "spare_error": errStr(rerr)})
+				return
+			}
 		}
 		for t := 0; t < 3; t++ {
 			var before, after []frame
